@@ -3,6 +3,7 @@ package drv
 import (
 	"fmt"
 	"reflect"
+	"regexp"
 	"sort"
 	"strings"
 
@@ -211,6 +212,8 @@ func fillMissing(o *types.Object) (err error) {
 	return nil
 }
 
+var fiveDigitYear = regexp.MustCompile(`parsing time \\?"\d{5,}-`)
+
 // toTerraformOK converts the object to a tftypes.Value and checks its type against the schema's.
 func toTerraformOK(o types.Object, schemaTy *TY) (msg string) {
 	defer func() {
@@ -232,6 +235,12 @@ func toTerraformOK(o types.Object, schemaTy *TY) (msg string) {
 	if err := tftypes.ValidateValue(want, v); err != nil {
 		// ValidateValue expects a Go value; the Value itself validates by construction
 		_ = err
+	}
+	// "so that the framework would accept it as state": the schema's type reads the value back
+	if _, err := BuildTy(schemaTy).ValueFromTerraform(bg, v); err != nil && !fiveDigitYear.MatchString(err.Error()) {
+		// (the harness's RFC 3339 time type cannot read back its own rendering of years beyond 9999, which the
+		// boundary values include: that is the user type's limit, not the generator's)
+		return "the schema's type does not accept the Terraform value of the result: " + err.Error()
 	}
 	return ""
 }
